@@ -176,7 +176,8 @@ def run(db: DB, rep: Report) -> None:
     rep.check("T1", ok, db.loc(bft.node), bft.short, "coiter-from-fiber-traces",
               "coiter trace lists are filled from self.fiber_traces entries (%d appends)" % len(apps),
               "Metrics.__build_fiber_traces fills a coiterator's trace list with something other than "
-              "entries of self.fiber_traces")
+              "entries of self.fiber_traces",
+              decided=len(apps) >= 2)
     # get_payload label: producer template == source template; prefix tests
     gp_prod = [r for r in hm.names.values() if r["role"] == "string" and
                any(show(t).startswith("get_payload") for t in r["tmpls"])]
@@ -185,17 +186,28 @@ def run(db: DB, rep: Report) -> None:
     prod_t = {show(t) for r in gp_prod for t in r["tmpls"]}
     ok = len(gp_prod) == 1 and len(src_lits) == 1 and prod_t == {src_lits[0] + "□"}
     # both append the tensor's root name
+    label_known = bool(prod_t) and bool(src_lits)
     if ok:
         ret = [n for n in walk_no_nested(gft.node) if isinstance(n, ast.Return) and src_lits[0] in
                [c.value for c in _strs(n)]]
-        ok = len(ret) == 1 and isinstance(ret[0].value, ast.BinOp) and isinstance(ret[0].value.right, ast.Name) \
-            and ret[0].value.right.id == gft.call_params[0]
+        tail = None
+        if len(ret) == 1:
+            rv = ret[0].value
+            if isinstance(rv, ast.BinOp) and isinstance(rv.op, ast.Add) and isinstance(rv.right, ast.Name):
+                tail = rv.right.id                       # "get_payload_" + tensor
+            elif isinstance(rv, ast.JoinedStr) and len(rv.values) == 2 and \
+                    isinstance(rv.values[0], ast.Constant) and isinstance(rv.values[1], ast.FormattedValue) and \
+                    isinstance(rv.values[1].value, ast.Name) and rv.values[1].format_spec is None and \
+                    rv.values[1].conversion == -1:
+                tail = rv.values[1].value.id             # f"get_payload_{tensor}"
+        ok = tail == gft.call_params[0]
+        label_known = tail is not None
     rep.check("T1", ok, db.loc(gft.node), gft.short, "get_payload-label",
               "get_payload label: producer %s, source '%s' + tensor" % (sorted(prod_t), src_lits[:1]),
               "the trace= label Header.make_get_payload emits (%s) and the label "
               "Metrics.get_fiber_trace returns for ranks outside the loop order (%s + tensor) differ" %
               (sorted(prod_t), src_lits),
-              decided=bool(prod_t) and bool(src_lits))
+              decided=label_known)
     n_pref = 0
     for f in (gt, Mx.methods["get_collected_tensor_info"]):
         for n in walk_no_nested(f.node):
@@ -398,7 +410,7 @@ def run(db: DB, rep: Report) -> None:
         for n in walk_no_nested(f.node):
             if isinstance(n, ast.If) and (paths.load_names(n.test) & labels):
                 atoms = paths.conjuncts(n.test, True)
-                return n, [a for a, p in atoms if p]
+                return n, [a if p else ast.UnaryOp(op=ast.Not(), operand=a) for a, p in atoms]
         return None, []
     n1, n1_atoms = filter_pred(Mx.methods["get_collected_tensor_info"])
     n2, n2_atoms = filter_pred(gt)
@@ -419,6 +431,9 @@ def run(db: DB, rep: Report) -> None:
                     for x in elts:
                         out.add("not-iter" if x == "iter" else "not-exactly:" + x)
                     continue
+            if re.fullmatch(r"not .+\.startswith\('get_payload'\)", t):
+                out.add("not-get_payload")
+                continue
             if t.endswith("!= 'iter'"):
                 out.add("not-iter")
             elif "[:11] != 'get_payload'" in t:
